@@ -18,9 +18,9 @@ def run(tier, seed, replay=None):
     wd = vctl_common.run_dir(pid)
     v = vlib.Verdict(pid, tier, seed)
     quick = tier == "quick"
-    cfg = "ControlSession_c19_quick.cfg" if quick else "ControlSession_c19_full.cfg"
+    cfg = "ControlSession_c19_quick.cfg" if quick or replay else "ControlSession_c19_full.cfg"
     r = vlib.tlc_must_pass(SPEC, cfg, wd, workers=4 if quick else 8, timeout=1500)
-    wit = vlib.witnesses(SPEC, "ControlSession_c19_quick.cfg", ["W19_NoRedaction", "W19_NoRefusal", "W19_NoCaseVariantAccepted"], wd, workers=2)
+    wit = [] if replay else vlib.witnesses(SPEC, "ControlSession_c19_quick.cfg", ["W19_NoRedaction", "W19_NoRefusal", "W19_NoCaseVariantAccepted"], wd, workers=2)
     vctl = vlib.build_harness("vctl")
     rbin = vctl_common.receptor_copy(wd)
     runs = [(cfg, r)]
